@@ -438,6 +438,14 @@ func (c *Cluster) Dial(ctx context.Context, network, addr string) (net.Conn, err
 	c.mu.Lock()
 	rs := c.Servers[addr]
 	if rs == nil {
+		// (host names are resolved as DNS resolves them: case does not matter to the network, whatever it means to the client)
+		for a, s := range c.Servers {
+			if strings.EqualFold(a, addr) {
+				rs, addr = s, a
+			}
+		}
+	}
+	if rs == nil {
 		c.mu.Unlock()
 		c.Trace.Emit("dial", "addr", addr, "ok", false)
 		return nil, fmt.Errorf("no such host %q (simulated)", addr)
